@@ -331,11 +331,13 @@ def _docs(tier):
 
 def roots(tier, seed):
     n = len(_docs(tier))
-    return [dict(kind="inmem"), dict(kind="routes")] + [dict(kind="docs", start=s, stop=min(n, s + CHUNK)) for s in range(0, n, CHUNK)]
+    return [dict(kind="large", n=k) for k in LARGE[tier]] + [dict(kind="inmem"), dict(kind="routes")] + [dict(kind="docs", start=s, stop=min(n, s + CHUNK)) for s in range(0, n, CHUNK)]
 
 
 def explore(root, tier, ctx):
-    if root["kind"] == "inmem":
+    if root["kind"] == "large":
+        check((), (), ctx, large=root["n"])
+    elif root["kind"] == "inmem":
         for i in range(len(INMEM)):
             check_inmem(i, ctx)
     elif root["kind"] == "routes":
@@ -354,19 +356,46 @@ def replay(case, ctx):
     elif "route" in case:
         check_route(case["route"], ctx)
     else:
-        check(tuple(tuple(x) for x in case["devs"]), tuple(case["seq"]), ctx)
+        check(tuple(tuple(x) for x in case["devs"]), tuple(case["seq"]), ctx, large=case.get("large"))
 
 
-def check(devs, seq, ctx):
+LARGE = dict(quick=[40, 2500], thorough=[40, 2500, 10000])
+
+
+def large_doc(n):
+    """size: n hit objects 125 ms apart over 7 lanes (every 6th a hold, every 9th with key sounds, every 10th with an editor
+    layer), a tempo point every 40 objects, an SV every 15"""
+    doc = default_doc()
+    doc["meta"]["Mode"] = "Keys7"
+    doc["hos"], doc["tps"], doc["svs"] = [], [], []
+    for i in range(n):
+        t = 125 * i
+        o = dict(StartTime=t, Lane=1 + (i * 3) % 7, KeySounds=[] if i % 9 else [dict(Sample=1 + i % 5, Volume=10 + i % 90)])
+        if i % 6 == 2:
+            o["EndTime"] = t + 100
+        if i % 10 == 7:
+            o["EditorLayer"] = 1 + i % 3
+        doc["hos"].append(o)
+        if i % 40 == 0:
+            doc["tps"].append(dict(StartTime=t, Bpm=[120, 90.5, 180, 60][(i // 40) % 4]))
+        if i % 15 == 4:
+            doc["svs"].append(dict(StartTime=t, Multiplier=0.5 + (i % 7) * 0.25))
+    return doc
+
+
+def check(devs, seq, ctx, large=None):
     from reamber.quaver import QuaMap
 
-    doc = builder.build(default_doc, AXES, ELEMENTS, devs, seq)
-    lab = builder.label(AXES, ELEMENTS, devs, seq)
+    if large:
+        doc, lab = large_doc(large), dict(devs=[f"large={large}"], elems=[])
+    else:
+        doc = builder.build(default_doc, AXES, ELEMENTS, devs, seq)
+        lab = builder.label(AXES, ELEMENTS, devs, seq)
     text = render(doc)
     den = denote(doc)
-    case = dict(devs=[list(d) for d in devs], seq=list(seq), label=lab, text=text)
+    case = dict(devs=[list(d) for d in devs], seq=list(seq), label=lab, text=text if len(text) < 4000 else text[:2000] + "\n...\n" + text[-1000:], large=large)
     ctx.case()
-    ctx.state(("qua", devs, seq), nontrivial=bool(devs or seq))
+    ctx.state(("qua", devs, seq, large), nontrivial=bool(devs or seq or large))
     ctx.depth(len(seq))
     if len(ctx.samples) < 1 and len(devs) == 2:
         ctx.sample(dict(label=lab, text=text[-300:]))
@@ -463,6 +492,14 @@ def matching(a, b, compatible):
     """True iff a perfect matching between the small lists a and b exists under `compatible` (backtracking)."""
     if len(a) != len(b):
         return False
+    if len(a) > 30:
+        # long lists: the order by time decides first (exact whenever compatible rows are further apart than the tolerance,
+        # as in the generated large documents); only if that fails and the lists are still small enough, backtrack
+        sa, sb = sorted(a, key=lambda x: (x[0], repr(x[1:]))), sorted(b, key=lambda x: (x[0], repr(x[1:])))
+        if all(compatible(x, y) for x, y in zip(sa, sb)):
+            return True
+        if len(a) > 300:
+            return False
     used = [False] * len(b)
 
     def go(i):
